@@ -2333,14 +2333,12 @@ struct evrrul_s {
 	/* proto method */
 	echs_instruc_t ins;
 
-	/* proto-event */
+	/* proto-event, from is on the wall clock of the proto-zone */
 	echs_event_t e;
 	/* proto-zone */
 	echs_tzob_t zon;
 	/* proto-calscale */
 	echs_scale_t cal;
-	/* proto-offset */
-	int pof;
 
 	/* sequence counter */
 	size_t seq;
@@ -2390,8 +2388,10 @@ __make_evrrul(echs_event_t e, rrulsp_t rr, size_t nr)
 	this->cal = echs_instant_scale(e.from);
 	e.from = echs_instant_rescale(e.from, SCALE_GREGORIAN);
 	this->zon = zon = echs_instant_tzob(e.from);
-	this->e = e = echs_event_to_utc(e);
-	this->pof = echs_instant_tzof(e.from, zon);
+	/* rules are expanded on the wall clock of DTSTART's zone,
+	 * refill() converts every occurrence to UTC on its own */
+	e.from = echs_instant_detach_tzob(e.from);
+	this->e = e;
 
 	/* bang the first one */
 	this->rrul = rr[0U];
@@ -2446,6 +2446,8 @@ refill(struct evrrul_s *restrict strm)
  * http://icalevents.com/2447-need-to-know-the-possible-combinations-for-repeating-dates-an-ical-cheatsheet/
  * we're trying to follow that one closely. */
 	struct rrulsp_s *restrict rr = &strm->rrul;
+	/* what the fillers see, UNTIL is on the proto-zone's wall clock */
+	struct rrulsp_s lrr;
 
 	assert(rr->freq > FREQ_NONE);
 	if (UNLIKELY(echs_nul_instant_p(strm->e.from))) {
@@ -2459,6 +2461,11 @@ refill(struct evrrul_s *restrict strm)
 		strm->cch[j] = strm->e.from;
 	}
 
+	lrr = *rr;
+	if (strm->zon && !echs_max_instant_p(lrr.until)) {
+		lrr.until = echs_instant_loc(lrr.until, strm->zon);
+	}
+
 	/* now go and see who can help us */
 	switch (rr->freq) {
 	default:
@@ -2467,26 +2474,26 @@ refill(struct evrrul_s *restrict strm)
 
 	case FREQ_YEARLY:
 		/* easiest */
-		strm->ncch = rrul_fill_yly(strm->cch, GRP_CCH_OFF, rr);
+		strm->ncch = rrul_fill_yly(strm->cch, GRP_CCH_OFF, &lrr);
 		break;
 	case FREQ_MONTHLY:
 		/* second easiest */
-		strm->ncch = rrul_fill_mly(strm->cch, GRP_CCH_OFF, rr);
+		strm->ncch = rrul_fill_mly(strm->cch, GRP_CCH_OFF, &lrr);
 		break;
 	case FREQ_WEEKLY:
-		strm->ncch = rrul_fill_wly(strm->cch, GRP_CCH_OFF, rr);
+		strm->ncch = rrul_fill_wly(strm->cch, GRP_CCH_OFF, &lrr);
 		break;
 	case FREQ_DAILY:
-		strm->ncch = rrul_fill_dly(strm->cch, GRP_CCH_OFF, rr);
+		strm->ncch = rrul_fill_dly(strm->cch, GRP_CCH_OFF, &lrr);
 		break;
 	case FREQ_HOURLY:
-		strm->ncch = rrul_fill_Hly(strm->cch, GRP_CCH_OFF, rr);
+		strm->ncch = rrul_fill_Hly(strm->cch, GRP_CCH_OFF, &lrr);
 		break;
 	case FREQ_MINUTELY:
-		strm->ncch = rrul_fill_Mly(strm->cch, GRP_CCH_OFF, rr);
+		strm->ncch = rrul_fill_Mly(strm->cch, GRP_CCH_OFF, &lrr);
 		break;
 	case FREQ_SECONDLY:
-		strm->ncch = rrul_fill_Sly(strm->cch, GRP_CCH_OFF, rr);
+		strm->ncch = rrul_fill_Sly(strm->cch, GRP_CCH_OFF, &lrr);
 		break;
 	}
 
@@ -2513,15 +2520,9 @@ refill(struct evrrul_s *restrict strm)
 	for (size_t i = 0U; i < strm->ncch; i++) {
 		strm->cch[i] = echs_instant_rescale(strm->cch[i], strm->cal);
 	}
-	/* utcify them all */
-	for (size_t i = 0U; i < strm->ncch; i++) {
-		int eof = echs_instant_tzof(strm->cch[i], strm->zon);
-
-		if (UNLIKELY(eof != strm->pof)) {
-			/* discrepancy, convert defo */
-			strm->cch[i] = echs_tzob_shift(
-				strm->cch[i], eof, strm->pof);
-		}
+	/* utcify them all, each at the offset of its own wall-clock time */
+	for (size_t i = 0U; strm->zon && i < strm->ncch; i++) {
+		strm->cch[i] = echs_instant_utc(strm->cch[i], strm->zon);
 	}
 	/* otherwise sort the array, just in case */
 	echs_instant_sort(strm->cch, strm->ncch);
@@ -2567,14 +2568,21 @@ send_evrrul(int whither, echs_const_evstrm_t s)
 	if (!this->seq) {
 		echs_event_t e = this->e;
 
+		if (!echs_nul_instant_p(e.from)) {
+			/* off the wall clock */
+			e.from = echs_instant_utc(e.from, this->zon);
+		}
 		for (size_t i = 0U; i < this->ref; i++) {
 			echs_instant_t cand = this[i].e.from;
 
 			if (UNLIKELY(this[i].rdi >= this[i].ncch)) {
 				/* end of stream innit or we need to refill
 				 * but this stream is const so just use the
-				 * proto event */
-				;
+				 * proto event, off the wall clock */
+				if (!echs_nul_instant_p(cand)) {
+					cand = echs_instant_utc(
+						cand, this[i].zon);
+				}
 			} else {
 				cand = this[i].cch[this[i].rdi];
 			}
